@@ -1418,7 +1418,10 @@ def evaluate(ctx, cases):
         impls.append(run_impl(c))
     outs = core.run_driver(lines)
     for c, P, impl, (a, k) in zip(cases, preps, impls, spans):
-        judge(ctx, c, P, impl, outs[a:a + k])
+        try:
+            judge(ctx, c, P, impl, outs[a:a + k])
+        except Exception as e:  # noqa: BLE001 -- what evo returned could not even be judged: a finding about this case, never a tool error
+            ctx.fail(c, "output-cannot-be-judged", f"the harness could not judge what evo returned: {type(e).__name__}: {str(e)[:200]}")
 
 
 def check(ctx):
